@@ -51,7 +51,7 @@ def lexer_for(lang):
     return get_lexer_for_filename(FILENAMES[lang])
 
 
-def eval_text(lang, lexer, text, filter_comments):
+def eval_text(lang, lexer, text, filter_comments, pre=None):
     from pygments.token import Comment, Text
 
     from codelimit.common.lexer_utils import lex
@@ -71,7 +71,7 @@ def eval_text(lang, lexer, text, filter_comments):
         col = off - (text.rfind("\n", 0, off) + 1) + 1
         want.append((line, col, str(ty), val, off))
     try:
-        got_tokens = lex(lexer, text, filter_comments)
+        got_tokens = pre if pre is not None else lex(lexer, text, filter_comments)
     except Exception as e:  # noqa
         return None, [("lex-raised", {"error": type(e).__name__}, repr(e))]
     got = [(t.location.line, t.location.column, str(t.token_type), t.value) for t in got_tokens]
@@ -168,6 +168,22 @@ def _block(block, agg):
         it = list(EXTRA_TEXTS) + [t for _n, t in wild.snippets(lang)]
     else:
         it = (first + "".join(t) for k in range(0, n) for t in itertools.product(alphabet, repeat=k))
+    if first is None:
+        # the same texts once more, DEFERRED: all of them are lexed first and only then are the tokens of each looked at (a token
+        # list must stay valid while other texts are lexed - a scan holds the tokens of one file while helpers lex others)
+        from codelimit.common.lexer_utils import lex
+
+        held = []
+        for text in it:
+            try:
+                held.append((text, lex(lexer, text, False)))
+            except Exception:  # noqa - reported by the immediate pass below
+                pass
+        for text, toks in held:
+            cnt, viol = eval_text(lang, lexer, text, False, pre=toks)
+            agg.case({"language": lang, "text": text, "filter_comments": False, "deferred": True}, bool(cnt), cnt, sample=False)
+            for k, sig, d in viol:
+                agg.violation(k, dict(sig, deferred=True), {"language": lang, "deferred_block": True}, d)
     for text in it:
         for fc in (True, False):
             cnt, viol = eval_text(lang, lexer, text, fc)
@@ -178,6 +194,10 @@ def _block(block, agg):
 
 
 def replay(case):
+    if case.get("deferred_block"):
+        agg = core.Agg()
+        _block((case["language"], 0, ALPHABET, None), agg)
+        return [r for lst in agg.violations.values() for _, r in lst if r.get("sig", {}).get("deferred")][:3]
     if "long" in case:
         agg = core.Agg()
         _block((case["language"], case["long"][1], None, "LONG"), agg)
